@@ -76,6 +76,14 @@ def themed_case(rng, g: EGen, tier):
         p = {"k": "num", "l": l, "op": op, "text": text, "v": float(text), "coq": "EPNum %s %s (fbits %d)" % (cbytes(B(l)), egen.OPNAME[op], egen.fbits(float(text)))}
         pipe[0] = g.st_json()          # all fields, so that the typed value is exposed
         pipe.insert(1, {"k": "filter", "p": p, "coq": "ELabelFilter (%s)" % p["coq"]})
+    if theme == "ip" and rng.random() < 0.7:
+        pipe.insert(0, g.ip_line_filter())
+    if theme == "attrs" and rng.random() < 0.25:
+        # ip() label filter on the addr attribute (single address, prefix, range incl. its bounds)
+        op = rng.choice(["==", "!="])
+        txt, coq = egen.gen_ippat(rng, egen.ADDRS)
+        p = {"k": "ip", "l": "addr", "op": op, "v": txt, "coq": "EPIP %s %s %s" % (cbytes(B("addr")), egen.cbool(op == "!="), coq)}
+        pipe.append({"k": "filter", "p": p, "coq": "ELabelFilter (%s)" % p["coq"]})
     if theme == "distinct" and not any(s["k"] == "distinct" for s in pipe):
         pipe.insert(rng.randint(0, len(pipe)), g.st_distinct(rng.sample(egen.QLABELS, rng.randint(1, 2))))
         pipe.append(g.line_filter(words=words))      # a line filter AFTER distinct: the D12 shape
@@ -209,6 +217,14 @@ class P(EngProp):
             capsets = CAPSETS + [rand_caps(rng)]
             evals = [{"q": b64e(q), "qcoq": qc, "label": cs[0], "line": cs[1], "limit": 0} for cs in capsets]
             rels = ["RelEqual 0 %d" % k for k in range(1, len(evals))] + ["RelSpec %d" % k for k in range(len(evals))]
+            tss = [r["ts"] for r in recs]
+            if not any(s["k"] == "distinct" for s in pipe) and len(set(tss)) == len(tss) and len(recs) >= 2:
+                # a positive limit returns the first min(L, matches) matches: records the pipeline rejects do not use up the limit,
+                # whoever evaluates the filters (unique timestamps, time-ordered delivery)
+                L = rng.choice([len(recs) - 1, len(recs), max(1, len(recs) // 2)])
+                for cs in (capsets[0], capsets[-1]):
+                    evals.append({"q": b64e(q), "qcoq": qc, "label": cs[0], "line": cs[1], "limit": L})
+                    rels.append("RelPrefixOf %d 0 %s" % (len(evals) - 1, cZ(L)))
             if expect is not None:
                 rels.append("RelTimestamps 0 %s" % clist(cZ(t) for t in expect))
             cases.append({"kind": theme, "recs": [g.rec_json(r) for r in recs], "oracle": orc, "evals": evals, "rels": rels,
